@@ -119,8 +119,10 @@ func execOpt(env Env, t *world.TaskSpec, out *Outcome) {
 			s := newSolver(t, pb, mode, t.AMO)
 			cfg := fmt.Sprintf("%s cp=%v amo=%v route=%s", entry, mode, t.AMO, t.Route)
 			var tap *tapCollector
+			mark := len(out.Viol)
 			if mode && prop == "C14" {
 				tap = newTap(env, rp)
+				env.Phase("cp")
 			}
 			var stop chan struct{}
 			if t.Stop {
@@ -136,6 +138,7 @@ func execOpt(env Env, t *world.TaskSpec, out *Outcome) {
 				ch := make(chan solver.Result, t.Cap)
 				var st Stream[solver.Result]
 				done := make(chan struct{})
+				out.chanFault(t.Cap, t.Delays, t.Stop)
 				Consume(env, "result-consumer", ch, t.Delays, &st, done)
 				res := s.Optimal(ch, stop)
 				closed := DrainAtReturn(ch, &st)
@@ -160,6 +163,10 @@ func execOpt(env Env, t *world.TaskSpec, out *Outcome) {
 			if tap != nil {
 				tap.stop(env)
 				tap.judge(out, t)
+			}
+			if mode && prop == "C14" {
+				markCP(out, mark)
+				env.Phase("")
 			}
 			statsProbes(s, out)
 		}
@@ -230,6 +237,7 @@ func execCount(env Env, t *world.TaskSpec, out *Outcome) {
 			ch := make(chan []bool, t.Cap)
 			var st Stream[[]bool]
 			done := make(chan struct{})
+			out.chanFault(t.Cap, t.Delays, false)
 			Consume(env, "model-consumer", ch, t.Delays, &st, done)
 			n := s.Enumerate(ch, nil)
 			closed := DrainAtReturn(ch, &st)
